@@ -22,7 +22,8 @@
 (* of the model, so that TLC predicts who must abort and whom it must name.   *)
 EXTENDS Zq, TLC
 
-CONSTANTS N, T, Ids     \* parties 1..N, threshold T, Ids[p] = the party's share id (its key)
+CONSTANTS N, T, Ids,    \* parties 1..N, threshold T, Ids[p] = the party's share id (its key)
+          WithFaults   \* model checking scope: FALSE = honest runs only
 ASSUME Len(Ids) = N /\ T >= 1 /\ T < N
 
 Parties == 1..N
@@ -32,9 +33,15 @@ Poly    == [Coef -> ZqStar]           \* samplePolynomial draws every coefficien
 NoFault == [kind |-> "none", from |-> 0, to |-> 0, idx |-> 0, delta |-> 0]
 Pairs == { ij \in Parties \X Parties : ij[1] # ij[2] }
 Faults  ==
+  IF ~WithFaults THEN {NoFault} ELSE
   {NoFault}
   \cup { [kind |-> "share", from |-> ij[1], to |-> ij[2], idx |-> 0, delta |-> 1] : ij \in Pairs }
   \cup { [kind |-> "open", from |-> ijc[1][1], to |-> ijc[1][2], idx |-> ijc[2], delta |-> 1] : ijc \in Pairs \X Coef }
+  \cup { [kind |-> "commit", from |-> ic[1], to |-> 0, idx |-> ic[2], delta |-> 1] : ic \in Parties \X Coef }
+(* share:  the share from `from` to `to` arrives as share + delta                                        *)
+(* open:   coefficient idx of the opening from `from` arrives at `to` shifted by delta (in the exponent)  *)
+(* commit: `from` commits to AND opens, towards everybody, commitments whose coefficient idx is shifted   *)
+(*         (a dealer whose published commitments do not belong to the polynomial its shares come from)    *)
 
 VARIABLES
   poly,     \* [Parties -> Poly] : the dealt polynomials (coefficient c = discrete log of V_pc)
@@ -53,12 +60,15 @@ ShareRecv(i, j) ==
   IF fault.kind = "share" /\ fault.from = i /\ fault.to = j
   THEN ShareSent(i, j) + fault.delta            \* an integer, not reduced: the wire carries integers
   ELSE ShareSent(i, j)
+Committed(i) ==
+  [c \in Coef |-> IF fault.kind = "commit" /\ fault.from = i /\ fault.idx = c
+                  THEN Add(poly[i][c], fault.delta) ELSE poly[i][c]]
 OpenRecv(i, j) ==
   [c \in Coef |-> IF fault.kind = "open" /\ fault.from = i /\ fault.to = j /\ fault.idx = c
-                  THEN Add(poly[i][c], fault.delta) ELSE poly[i][c]]
+                  THEN Add(Committed(i)[c], fault.delta) ELSE Committed(i)[c]]
 
 (* commitments.HashCommitDecommit.Verify: the opening must be the committed tuple *)
-Opens(i, j) == OpenRecv(i, j) = poly[i]
+Opens(i, j) == OpenRecv(i, j) = Committed(i)
 (* an opened coefficient 0 is the identity, which NewECPoint / UnFlattenECPoints refuse *)
 OpenValid(i, j) == \A c \in Coef : OpenRecv(i, j)[c] # 0
 (* vss.Share.Verify: share * G = sum_c V_ic id^c; a share that is 0 mod Q never verifies *)
@@ -177,8 +187,8 @@ HonestCompletes ==       \* without a fault nobody aborts (a run may only be deg
 
 (* C05 at the data level: a party that was handed an altered value never      *)
 (* finishes, and names exactly the sender; nobody else aborts.                *)
-NoSilentAccept ==
-  (fault # NoFault) => ~Done(fault.to)
+Victims == IF fault.kind = "commit" THEN Parties \ {fault.from} ELSE IF fault = NoFault THEN {} ELSE {fault.to}
+NoSilentAccept == \A p \in Victims : ~Done(p)
 BlameExact ==
-  Regular => \A p \in Parties : pc[p] = "abort" => (fault # NoFault /\ p = fault.to /\ culprits[p] = {fault.from})
+  Regular => \A p \in Parties : pc[p] = "abort" => (p \in Victims /\ culprits[p] = {fault.from})
 =============================================================================
